@@ -482,7 +482,7 @@ class CopyOracle(Oracle):
     def sig(self, recs, uid, with_children=True):
         """Identifier-free signature of a record (and, recursively, of its subtree and property groups)."""
         rec = recs[uid]
-        body = {f: rec.get(f) for f in self.SIG_FIELDS}
+        body = {f: rec.get(f) for f in self.SIG_FIELDS if not (f == "type_uid" and rec["kind"] == "data")}
         body["metadata"] = body["metadata"] or None
         body["attrs"] = {k: (compare.flat(v) if isinstance(v, list) else v) for k, v in rec.get("attrs", {}).items() if k not in self.IGNORE_ATTRS}
         body["arrays"] = {k: compare.flat(v) if k != "options" else (v or {}) for k, v in rec.get("arrays", {}).items()}
@@ -496,8 +496,13 @@ class CopyOracle(Oracle):
 
     def match(self, src_model, s_uid, new, d_uid, info, top=False):
         s, d = src_model.recs[s_uid], new[d_uid]
+        if top and info.get("masked_values") is not None:
+            s = {**s, "values": info["masked_values"]}      # a masked data copy: kept values, no-data elsewhere
         cls = s["cls"]
-        diffs = compare.diff_record(s, d, "SRC", "COPY", fields=self.SIG_FIELDS)
+        # (a copied data set may get a data type of its own -- the drillhole-group copy path does that; the property asks for equal
+        #  class, attributes and values, which for a data set means the same primitive type, not the same type node)
+        fields = tuple(f for f in self.SIG_FIELDS if not (f == "type_uid" and s["kind"] == "data"))
+        diffs = compare.diff_record(s, d, "SRC", "COPY", fields=fields)
         diffs += compare.diff_record(s, d, "SRC", "COPY", fields=("attrs", "arrays"), skip_attrs=self.IGNORE_ATTRS)
         if diffs:
             raise Violation("C12", "copy_differs", f"{cls}: {diffs[0]}", {"cls": cls, "field": _field(diffs[0])})
